@@ -39,24 +39,39 @@ RULE = ("pair: two tables re-weighted (after a deep copy) from random coding seq
         "realised usage shares of both tables and their +/-1 ulp neighbours, tiny and huge values; AddCodonTable and "
         "CompromiseCodonTable both ways, Optimize on the compromise.  Outside the judged domain (correspondence only): "
         "tables from different codes (index panic), amino acids that do not occur (NaN shares), literal tables with "
-        "duplicate / missing triplets, empty tables, NaN / Inf cut-offs.  non-trivial = in-domain pair; distinct by case text")
+        "duplicate / missing triplets, empty tables, NaN / Inf cut-offs (Go rejects +/-Inf, lets NaN through; outside [-1,2], "
+        "not judged).  An operand that is not the re-weighted regenerated table is a failure whatever its domain.  "
+        "non-trivial = in-domain pair; distinct by case text")
 EXHAUSTIVE = {"quick": False, "thorough": False}
-TRUSTED_BASE = ["Lean Float = IEEE binary64 with the same + - * / and conversions as Go on amd64 (the step from the Float "
-                "model to the exact rational model is bounded by test, +/-1 on the 10000 scale, not proved)",
+TRUSTED_BASE = ["Lean Float = IEEE binary64 with the same + - * / and conversions as Go on amd64 (correspondence model); the judge "
+                "does not use it: its float64 reading is an independent round-to-nearest-even over Nat (checked equal to Lean Float "
+                "on 3*10^5 random shares / cut-offs when written, and on every run by the bit-exact correspondence)",
                 "harness deep-copies every operand (table text round trip) before re-weighting and combining (C08 aliasing)"]
-ASSUMPTIONS = ["weights and sums below 2^53", "amd64: int(NaN) = -2^63 (only reachable outside the judged domain)",
+ASSUMPTIONS = ["weights and sums below 2^53",
+               "StartCodons / StopCodons of the table returned by AddCodonTable / CompromiseCodonTable share their backing array "
+               "with the FIRST operand (c.StartCodons = firstCodonTable.StartCodons; Go probe: writing s.StartCodons[0] of the "
+               "result changes the operand). OUTSIDE the property: its clauses speak about what calls of the package return and "
+               "about re-weightings leaking between calls; no function of package codon writes a StartCodons / StopCodons "
+               "element, so no sequence of package calls can observe this sharing - only a caller that assigns into the returned "
+               "slices does. The models carry both lists as immutable values accordingly (Model/CodonTables.lean, heap model)",
+               "cut-offs that are NaN or +/-Inf are outside the quantifier ([-1,2]): correspondence only, not judged", "amd64: int(NaN) = -2^63 (only reachable outside the judged domain)",
                "inputs are ASCII"]
-PARTIAL = ["EVERY numeric theorem (compromise_weight, compromise_mean, compromise_zero_below, compromise_never_rare, "
-           "optimize_compromise_never_rare*, compromise_symm, compromise_rejects) is about the EXACT model (rational cut-off, "
-           "shares floor(10000 w / total)); the code is compared with the float64 instance of the same function. The step "
-           "between the two instances is TESTED, not proved: the judge accepts exactly the weights the rule yields for share "
-           "candidates {floor, floor-1 when 10000 w/total is an integer other than 0 and 10000} and cut-off candidates "
-           "{floor(10000c), +1 when 10000c is within 1e-9 below an integer} (Spec shareCands / Driver cutCands); classes ending "
-           "in 'fx' count the cases where float64 and exact results differ. Proved for EVERY arithmetic (so also float64, given "
-           "commutative float addition): compromise_keeps_code, compromise_rejects_any, compromise_symm_any",
-           "optimize_compromise_never_rare_emits links the clause to C07's model of codon.Optimize (Emits); the draw-level "
-           "behaviour of the real weighted chooser is C07's correspondence, here the judge checks the clause on the real "
-           "codon.Optimize output and that Optimize errs exactly when a residue has no codon above the 10 % share"]
+PARTIAL = ["EVERY numeric clause is proved for EXACT arithmetic only (compromise_weight, compromise_mean, compromise_zero_below, "
+           "compromise_never_rare, optimize_compromise_never_rare*, compromise_symm, compromise_rejects: rational cut-off, shares "
+           "floor(10000 w / total)). The code computes in float64 and is compared bit-exactly with the float64 instance of the same "
+           "function; the step exact <-> float64 is TESTED by that correspondence and by the judge, not proved (Lean's Float is "
+           "opaque to the kernel)",
+           "compromise_symm_any / compromise_rejects_any / compromise_keeps_code hold for every arithmetic record; the hypothesis of "
+           "compromise_symm_any (the mean is commutative) CANNOT be discharged for floatArith in Lean (opaque Float), so the exact "
+           "symmetry of the real function is a theorem only modulo that IEEE fact; it is observed (judge demands r12 = r21 as maps)",
+           "the last clause is proved on the truncated 10000 scale (floor(10000 c) <= floor(10000 share)), i.e. 'not rarer than the "
+           "cut-off' up to 1e-4; optimize_compromise_never_rare_model links it to C07's model of codon.Optimize (Emits); the "
+           "draw-level behaviour of the real weighted chooser is C07's correspondence, here the judge checks the clause on the real "
+           "codon.Optimize output and that Optimize errs exactly when a residue has no codon above the 10 % share",
+           "judge: no tolerance band; a weight must equal one of three named readings of the statement that can differ by rounding "
+           "only: (a) float64 arithmetic (independent round-to-nearest-even over Nat, Spec rne / shareF64 / cutF64), (b) exact "
+           "arithmetic truncated before comparing (the theorems' model), (c) exact arithmetic compared before truncation; classes "
+           "ending in 'fx' count the cases where (a) and (b) differ"]
 PROOF_MODULES = ["PolyVerif.Props.C18", "PolyVerif.Props.C18Optimize"]
 TIMEOUT_MS = 30000
 
